@@ -125,6 +125,22 @@ Canon(ty, av) ==
     [] OTHER -> av
 
 -----------------------------------------------------------------------------
+(* Defaults (C13) *)
+DefaultedIdx(n) == {i \in Idx(FieldsOf(n)) : FieldsOf(n)[i].def # NoDefault}
+RECURSIVE HasDefaults(_), DefaultInstance(_)
+HasDefaults(n) == DefaultedIdx(n) # {}
+\* what a freshly constructed default instance carries: every defaulted field its default, and every required
+\* record-typed field whose record declares defaults a default instance of that record
+DefaultInstance(n) ==
+  LET fs == FieldsOf(n)
+      nested(i) == fs[i].def = NoDefault /\ ~fs[i].opt /\ fs[i].ty.k = "ref" /\ SchemaOf[fs[i].ty.n].k = "record" /\ HasDefaults(fs[i].ty.n)
+      keep == SelectSeq([i \in Idx(fs) |-> i], LAMBDA i : fs[i].def # NoDefault \/ nested(i))
+  IN [t |-> "rec", v |-> [j \in Idx(keep) |-> [k |-> fs[keep[j]].n,
+                                                 v |-> IF fs[keep[j]].def # NoDefault THEN fs[keep[j]].def ELSE DefaultInstance(fs[keep[j]].ty.n)]]]
+\* documents for C13: every SUBSET of the defaulted fields omitted, every other field present with a non-default value
+OmitSubsets(n) == {[t |-> "rec", v |-> SelectSeq(RecBase(n).v, LAMBDA e : \A i \in S : FieldsOf(n)[i].n # e.k)] : S \in SUBSET DefaultedIdx(n)}
+
+-----------------------------------------------------------------------------
 (* Norm: the normal form under abstract equality (C10).  Two values are abstractly equal iff their normal forms are  *)
 (* identical: record fields and map entries become SETS (supply / insertion order is irrelevant), everything else is  *)
 (* kept, so any difference in a field, element, union member or optional presence shows.  -0 is identified with 0     *)
